@@ -518,6 +518,10 @@ def _check(pid, P, tier, seed, bdir, ev):
         names = pclauses.get(fk)
         if not names:
             continue
+        # Verus reports at most VR.MULTIPLE_ERRORS failing obligations per function: at the cap a failing p_* clause may simply not have been
+        # reported, so "no p_* clause among the failures" proves nothing and the failures decide as they did before the rule existed.
+        if len(xs) >= VR.MULTIPLE_ERRORS:
+            continue
         if all(x.clause and x.clause[0] == fk and x.clause[1] == 'ensures' and not x.clause[2].startswith('p_') for x in xs):
             advisory.add(fk)
     for x in failures_all:
